@@ -236,6 +236,8 @@ def safetynetTimestampRejects (timestamp_ms now_seconds : Int) : Bool := (decide
 
 def tpmEkuRuleIsContains : Bool := true
 
+def pssValueErrorIsInvalid : Bool := true
+
 def safetynetTimestampRequiresInt : Bool := true
 
 -- [defaults] extracted
